@@ -14,11 +14,6 @@ namespace Gorm
 /-- a chain call contributes a condition iff its form is effective -/
 def effective (f : Form) : Bool := f.cond.isSome
 
-theorem mkAnd_isSome (es : List Ex) (h : es ≠ []) : (mkAnd es).isSome = true := by
-  cases es with
-  | nil => exact absurd rfl h
-  | cons e r => cases r <;> simp [mkAnd] <;> split <;> rfl
-
 /-- the empty forms: "", nil, empty map, all-zero struct, empty slice, group without conditions -/
 theorem C09_empty_forms_ineffective :
     effective .empty = false ∧ effective (.fields []) = false ∧ effective (.group []) = false := by
@@ -75,20 +70,6 @@ theorem chainExprs_length_aux (ops : List (ChainOp × Form)) (acc : List Ex) :
 theorem C09_where_length (ops : List (ChainOp × Form)) : (chainExprs ops).length = effCount ops := by
   have := chainExprs_length_aux ops []
   simpa [chainExprs] using this
-
-theorem regroup_length_pos (es : List Ex) (h : es ≠ []) : (regroup es).length ≥ 1 := by
-  unfold regroup
-  by_cases ha : es.any Ex.isSingleOr = true
-  · simp only [ha, if_true]
-    have := mkAnd_isSome es h
-    cases hm : mkAnd es with
-    | none => rw [hm] at this; simp at this
-    | some x => simp
-  · have h' : es.any Ex.isSingleOr = false := by simpa using ha
-    simp only [h', Bool.false_eq_true, if_false]
-    cases es with
-    | nil => exact absurd rfl h
-    | cons e r => simp
 
 /-- BLOCKS: without AllowGlobalUpdate, a chain none of whose condition calls is effective and a model value
     without primary key is rejected — on a plain model (no WHERE entry at all) and on a soft-delete model
